@@ -166,6 +166,31 @@ func resolveCallback(v ssa.Value) *ssa.Function {
 		fn, _ = x.Fn.(*ssa.Function)
 	case *ssa.Function:
 		fn = x
+	case *ssa.Call:
+		// a closure factory: every return of the callee hands out a closure over the same function literal
+		if callee := x.Call.StaticCallee(); callee != nil && len(callee.Blocks) > 0 {
+			var lit *ssa.Function
+			same := true
+			for _, r := range core.Returns(callee) {
+				if len(r.Results) != 1 {
+					same = false
+					continue
+				}
+				mc, ok := r.Results[0].(*ssa.MakeClosure)
+				if !ok {
+					same = false
+					continue
+				}
+				f2, _ := mc.Fn.(*ssa.Function)
+				if lit != nil && lit != f2 {
+					same = false
+				}
+				lit = f2
+			}
+			if same {
+				fn = lit
+			}
+		}
 	}
 	if fn != nil && fn.Synthetic != "" && strings.Contains(fn.Synthetic, "bound") {
 		var target *ssa.Function
